@@ -1,6 +1,6 @@
 """C09 - TestResult -> StreamResult -> TestResult conversion preserves every test
 (ExtendedToStreamDecorator -> CopyStreamResult([stream sink, StreamToExtendedDecorator(extended sink)])).
-Input : [explicitStart, [test...]]   test = [id, gtags, t0, ltags, t1, result]   (see TTV/Drv/C09.lean)
+Input : [explicitStart, [run...]]   run = [test...]   test = [id, gtags, t0, ltags, t1, result]   (all runs on the same converter pair)   (see TTV/Drv/C09.lean)
 Trace : [mid-stream events, calls received by the final extended result]
 """
 import itertools, traceback
@@ -19,7 +19,8 @@ class C09(Prop):
     id = 'C09'
     budgets = {'quick': 2500, 'thorough': 30000}
     time_limit = {'quick': 60, 'thorough': 600}
-    rule = ('histories of 0-5 tests (3 ids, possibly repeated), each outcome kind, payload = exc_info / details (0-3 details out of 5 names incl. '
+    rule = ('histories of 1-3 runs (startTestRun ... stopTestRun) on the same ExtendedToStreamDecorator/StreamToExtendedDecorator pair, explicit time() values '
+            'in some runs and none in others; per run 0-5 tests (3 ids, possibly repeated), each outcome kind, payload = exc_info / details (0-3 details out of 5 names incl. '
             '"reason", "traceback" and a non-ASCII name, 0-4 chunks each biased to 0,1,2 chunks with leading/trailing/all-empty chunks, a UTF-8 '
             'character split over two chunks; 6 content types incl. parameters) / reason text (empty, ASCII, non-ASCII, astral) / nothing; '
             'tags() before and inside tests, time() before startTest and before the outcome or never; startTestRun explicit or implied. '
@@ -31,10 +32,10 @@ class C09(Prop):
                    'addSkip gets reason or details (alternatives, as in the extended API), never both',
                    'datetime.now(utc) is canonicalised to `now` after checking it is tz-aware UTC and inside the run window',
                    'when startTestRun is left to the first startTest, no tags()/time() call precedes that startTest (tags() would raise AttributeError, the time would be forgotten by the implied startTestRun)',
-                   'the history is well formed: [tags] [time] startTest [tags] [time] outcome stopTest per test, one run; stopTestRun is not called on a decorator that was never started']
+                   'the history is well formed: runs startTestRun ... stopTestRun (only the first startTestRun may be left to the first startTest), per test [tags] [time] startTest [tags] [time] outcome stopTest; stopTestRun is not called on a decorator that was never started']
 
     manifest = {
-        'text': 'Theorems for every well-formed history (any number of tests, each outcome kind with exc_info / details / reason / nothing, any number of details and '
+        'text': 'Theorems for every well-formed history of runs on one converter pair (startTestRun resets tags and clock: a run that supplies no time() is stamped with the wall clock, never with a time of an earlier run; any number of tests, each outcome kind with exc_info / details / reason / nothing, any number of details and '
                 'chunks incl. empty ones, tags() and time() calls): the stream between the converters is, per test, inprogress, then for each detail in order its chunks '
                 'with eof exactly on the last (one empty eof chunk for a detail without chunks), then the reason file, then exactly one final status (error and failure '
                 'as fail); StreamToExtendedDecorator replays it as, per test and in order, one well-formed startTest/outcome/stopTest bracket with the same id, the same '
@@ -68,47 +69,49 @@ class C09(Prop):
 
     def run_impl(self, inp):
         from testtools import ExtendedToStreamDecorator, CopyStreamResult, StreamToExtendedDecorator, PlaceHolder
-        explicit, tests = inp
+        explicit, runs = inp
         try:
             clock = S.Clock()
             mid = _Mid(clock)
             ext = S.ExtSink(clock)
+            # one pair of converters for all runs of the history
             e = ExtendedToStreamDecorator(CopyStreamResult([mid, StreamToExtendedDecorator(ext)]))
-            if explicit:
+            for nrun, tests in enumerate(runs):
+              if explicit or nrun > 0:
                 e.startTestRun()
-            for tid, gtags, t0, ltags, t1, result in tests:
-                pl = PlaceHolder(S.test_id(tid))
-                if gtags is not None:
-                    e.tags(S.tagset(gtags[1][0]), S.tagset(gtags[1][1]))
-                if t0 is not None:
-                    e.time(S.ts(t0[1]))
-                e.startTest(pl)
-                if ltags is not None:
-                    e.tags(S.tagset(ltags[1][0]), S.tagset(ltags[1][1]))
-                if t1 is not None:
-                    e.time(S.ts(t1[1]))
-                kind, p = result
-                if kind in ('success', 'uxsuccess'):
-                    m = e.addSuccess if kind == 'success' else e.addUnexpectedSuccess
-                    if p is None:
-                        m(pl)
-                    else:
-                        m(pl, details=self.details(p[1]))
-                elif kind in ('error', 'failure', 'xfail'):
-                    m = {'error': e.addError, 'failure': e.addFailure, 'xfail': e.addExpectedFailure}[kind]
-                    if p == 'err':
-                        m(pl, TB)
-                    else:
-                        m(pl, details=self.details(p[1:]))
-                else:
-                    if p is None:
-                        e.addSkip(pl)
-                    elif p[0] == 'reason':
-                        e.addSkip(pl, ''.join(map(chr, p[1])))
-                    else:
-                        e.addSkip(pl, details=self.details(p[1:]))
-                e.stopTest(pl)
-            e.stopTestRun()
+              for tid, gtags, t0, ltags, t1, result in tests:
+                  pl = PlaceHolder(S.test_id(tid))
+                  if gtags is not None:
+                      e.tags(S.tagset(gtags[1][0]), S.tagset(gtags[1][1]))
+                  if t0 is not None:
+                      e.time(S.ts(t0[1]))
+                  e.startTest(pl)
+                  if ltags is not None:
+                      e.tags(S.tagset(ltags[1][0]), S.tagset(ltags[1][1]))
+                  if t1 is not None:
+                      e.time(S.ts(t1[1]))
+                  kind, p = result
+                  if kind in ('success', 'uxsuccess'):
+                      m = e.addSuccess if kind == 'success' else e.addUnexpectedSuccess
+                      if p is None:
+                          m(pl)
+                      else:
+                          m(pl, details=self.details(p[1]))
+                  elif kind in ('error', 'failure', 'xfail'):
+                      m = {'error': e.addError, 'failure': e.addFailure, 'xfail': e.addExpectedFailure}[kind]
+                      if p == 'err':
+                          m(pl, TB)
+                      else:
+                          m(pl, details=self.details(p[1:]))
+                  else:
+                      if p is None:
+                          e.addSkip(pl)
+                      elif p[0] == 'reason':
+                          e.addSkip(pl, ''.join(map(chr, p[1])))
+                      else:
+                          e.addSkip(pl, details=self.details(p[1:]))
+                  e.stopTest(pl)
+              e.stopTestRun()
             return [self.canon_tb(mid.ev), self.canon_tb(ext.ev)]
         except Exception as ex:
             return ['raised', type(ex).__name__]
@@ -154,20 +157,27 @@ class C09(Prop):
             return None
         return ['some', [sorted(rng.sample([0, 1, 2, 3], rng.choice([0, 1, 1, 2]))), sorted(rng.sample([0, 1, 2, 3], rng.choice([0, 0, 1, 2])))]]
 
-    def gen(self, rng, tier):
-        n = rng.choice([0, 1, 1, 2, 2, 3, 4, 5])
-        clock = itertools.count(rng.choice([0, 10]))
-        timed = rng.random() < 0.7
+    def gen_run(self, rng, n, clock, timed):
         tests = []
         for _ in range(n):
             t0 = ['some', next(clock)] if timed and rng.random() < 0.6 else None
             t1 = ['some', next(clock)] if timed and rng.random() < 0.6 else None
             tests.append([rng.choice([0, 1, 2]), self.gen_tags(rng), t0, self.gen_tags(rng), t1, self.gen_result(rng)])
-        explicit = True if n == 0 else rng.random() < 0.6
+        return tests
+
+    def gen(self, rng, tier):
+        clock = itertools.count(rng.choice([0, 10]))
+        nruns = rng.choice([1, 1, 1, 2, 2, 3])
+        runs = []
+        for k in range(nruns):
+            n = rng.choice([0, 1, 1, 2, 2, 3, 4, 5]) if nruns == 1 else rng.choice([0, 1, 1, 2, 3])
+            # explicit times in some runs and none in others: a later run without time() is stamped with the wall clock
+            runs.append(self.gen_run(rng, n, clock, rng.random() < 0.6))
+        explicit = True if not runs[0] else rng.random() < 0.6
         if not explicit:
-            # the run is started by the first startTest: nothing may be reported to the decorator before it
-            tests[0][1] = tests[0][2] = None
-        return [explicit, tests]
+            # the first run is started by its first startTest: nothing may be reported to the decorator before it
+            runs[0][0][1] = runs[0][0][2] = None
+        return [explicit, runs]
 
     def enumerate(self, tier):
         alphabet = [[], [65]]
@@ -175,10 +185,10 @@ class C09(Prop):
         for kind in ('success', 'failure', 'skip'):
             for c1 in chunkings:
                 ds = [[2, 1, [list(x) for x in c1]]]
-                yield [True, [[0, None, None, None, None, self.wrap(kind, ds)]]]
+                yield [True, [[[0, None, None, None, None, self.wrap(kind, ds)]]]]
                 for c2 in chunkings:
                     ds2 = ds + [[0 if kind == 'skip' else 3, 1 if kind == 'skip' else 0, [list(x) for x in c2]]]
-                    yield [True, [[0, None, ['some', 1], None, ['some', 2], self.wrap(kind, ds2)], [1, None, None, None, None, ['success', None]]]]
+                    yield [True, [[[0, None, ['some', 1], None, ['some', 2], self.wrap(kind, ds2)]], [[1, None, None, None, None, ['success', None]]]]]
 
     def wrap(self, kind, ds):
         if kind == 'success':
@@ -195,12 +205,17 @@ class C09(Prop):
         return []
 
     def nontrivial(self, inp, trace):
-        tests = inp[1]
+        tests = [t for run in inp[1] for t in run]
         return len(tests) >= 2 or any(len(d[2]) != 1 or d[2] == [[]] for t in tests for d in self.result_details(t[5]))
 
     def features(self, inp, trace):
-        explicit, tests = inp
-        f = {'tests=%d' % len(tests), 'start:' + ('explicit' if explicit else 'implied')}
+        explicit, runs = inp
+        tests = [t for run in runs for t in run]
+        f = {'tests=%s' % (len(tests) if len(tests) < 6 else '6+'), 'start:' + ('explicit' if explicit else 'implied'), 'runs=%d' % len(runs)}
+        timed = [any(t[2] is not None or t[4] is not None for t in run) for run in runs]
+        for k in range(1, len(runs)):
+            if any(timed[:k]) and runs[k] and runs[k][0][2] is None:
+                f.add('run-without-own-time-after-timed-run')
         for t in tests:
             kind, p = t[5]
             f.add('outcome:' + kind)
@@ -232,23 +247,35 @@ class C09(Prop):
         return sorted(f)
 
     def shrink(self, inp):
-        explicit, tests = inp
+        explicit, runs = inp
+        for k in range(len(runs)):
+            if len(runs) > 1 and (k > 0 or explicit or runs[1:2] and runs[1]):
+                cand = runs[:k] + runs[k + 1:]
+                if explicit or (cand and cand[0] and cand[0][0][1] is None and cand[0][0][2] is None):
+                    yield [explicit, cand]
+            for tests in self.shrink_run(runs[k], explicit or k > 0):
+                yield [explicit, runs[:k] + [tests] + runs[k + 1:]]
+        if not explicit:
+            yield [True, runs]
+
+    def shrink_run(self, tests, explicit):
         for i in range(len(tests)):
-            if len(tests) > 1 or explicit:
-                yield [explicit, tests[:i] + tests[i + 1:]]
+            rest = tests[:i] + tests[i + 1:]
+            if explicit or (rest and rest[0][1] is None and rest[0][2] is None):
+                yield rest
         for i, t in enumerate(tests):
             for pos in (1, 2, 3, 4):
                 if t[pos] is not None:
-                    yield [explicit, tests[:i] + [t[:pos] + [None] + t[pos + 1:]] + tests[i + 1:]]
+                    yield tests[:i] + [t[:pos] + [None] + t[pos + 1:]] + tests[i + 1:]
             kind, p = t[5]
             ds = self.result_details(t[5])
             for j in range(len(ds)):
                 nds = ds[:j] + ds[j + 1:]
-                yield [explicit, tests[:i] + [t[:5] + [[kind, ['some', nds]] if kind in ('success', 'uxsuccess') else [kind, ['details'] + nds]]] + tests[i + 1:]]
+                yield tests[:i] + [t[:5] + [[kind, ['some', nds]] if kind in ('success', 'uxsuccess') else [kind, ['details'] + nds]]] + tests[i + 1:]
                 for k in range(len(ds[j][2])):
                     nd = [ds[j][0], ds[j][1], ds[j][2][:k] + ds[j][2][k + 1:]]
                     nds = ds[:j] + [nd] + ds[j + 1:]
-                    yield [explicit, tests[:i] + [t[:5] + [[kind, ['some', nds]] if kind in ('success', 'uxsuccess') else [kind, ['details'] + nds]]] + tests[i + 1:]]
+                    yield tests[:i] + [t[:5] + [[kind, ['some', nds]] if kind in ('success', 'uxsuccess') else [kind, ['details'] + nds]]] + tests[i + 1:]
 
 
 class _Mid:
